@@ -894,4 +894,50 @@ example :
   refine conc_of_interleaving realKey ?_ {}
   exact .call 0 _ _ rfl (.call 2 _ _ rfl (.call 1 _ _ rfl (.call 0 _ _ rfl (.call 2 _ _ rfl (.done (by decide))))))
 
+/-! ## 7. the datastore key separates different batches: the hash input is injective -/
+
+/-- The byte string the CURRENT `Batch.Hash` feeds to SHA-256 (8-byte big-endian count, then every transaction as
+8-byte big-endian length + bytes; nothing for the empty batch) is injective on lists of byte strings shorter than 2^64
+(Go slices are): two different batches never have the same hash input, so their datastore keys differ unless SHA-256
+collides (`keyNoCollision`).  This is the assumption under which `PendingKeysDistinct` follows from "no two batches with
+equal CONTENTS pending at the same time" (`C10_restart_partial'`), made explicit. -/
+theorem batchHashInput_injective (a b : List Bytes) (ha : ∀ tx ∈ a, tx.length < 2 ^ 64)
+    (hb : ∀ tx ∈ b, tx.length < 2 ^ 64) (h : hashInput a = hashInput b) : a = b :=
+  hashEnc_injective a b ha hb h
+
+/-- the Lean layout is the compiled code's: SHA-256 of `hashInput` of the golden batch (three transactions, the middle
+one empty) is what `Batch.Hash` of /repo returned now (regenerated fact) -/
+theorem golden_hash_input : sha256 (hashInput gBatch) = Gen.C10.goldenHash := golden_hash
+
+/-- … and of a re-split pair: the compiled code gives `["ab","c"]` and `["a","bc"]` the keys the model computes -/
+theorem golden_key_resplit :
+    keyString [[97, 98], [99]] = Gen.C10.keyAbC ∧ keyString [[97], [98, 99]] = Gen.C10.keyABc ∧
+      Gen.C10.keyAbC ≠ Gen.C10.keyABc := by decide +kernel
+
+/-- Without the per-transaction length fields the input is NOT injective: `["ab","c"]` and `["a","bc"]` (same count,
+same concatenation, other boundaries) collide. -/
+theorem hashInputNoLen_not_injective :
+    hashInputNoLen [[97, 98], [99]] = hashInputNoLen [[97], [98, 99]] ∧
+      ([[97, 98], [99]] : List Bytes) ≠ [[97], [98, 99]] := by decide
+
+/-- … also with a boundary moved across an empty transaction -/
+example : hashInputNoLen [[], [97, 98]] = hashInputNoLen [[97], [98]] ∧
+    hashInputNoLen [[97], [98]] = hashInputNoLen [[97, 98], []] := by decide
+
+/-- What the injectivity buys, on the smallest history: a re-split pair pending at a restart.  With the real keys both
+batches survive, also after the first was handed out; with a key that leaves the length fields out the second acceptance
+overwrites the first record (one batch after the restart) and handing the first out deletes the only record (none). -/
+theorem resplit_pair_survives_restart :
+    let p : Batch := [[97], [98, 99]]
+    let q : Batch := [[97, 98], [99]]
+    (run realKey {} [.submit [] p, .submit [] q, .restart]).st.mem = [p, q] ∧
+    (run realKey {} [.submit [] p, .submit [] q, .next [], .restart]).st.mem = [q] ∧
+    (run noLenKey {} [.submit [] p, .submit [] q, .restart]).st.mem = [q] ∧
+    (run noLenKey {} [.submit [] p, .submit [] q, .next [], .restart]).st.mem = [] := by decide +kernel
+
+example : PendingKeysDistinct realKey {} [.submit [] [[97], [98, 99]], .submit [] [[97, 98], [99]], .restart] := by
+  decide +kernel
+example : ¬ PendingKeysDistinct noLenKey {} [.submit [] [[97], [98, 99]], .submit [] [[97, 98], [99]], .restart] := by
+  decide +kernel
+
 end Spec.C10
